@@ -190,6 +190,26 @@ fn make_env_case(r: &mut Rng, seed: u64, run: u64, stats: &mut Stats) -> Option<
     Some(case)
 }
 
+/// whole sources for the shared assembler (and its re-used context): they define names the
+/// machines' programs use too, fail half way, nest too deeply, recurse
+fn poison_sources() -> Vec<String> {
+    let mut v = vec![
+        "macro m_0(a_0) -> add bx, a_0 <-\nmacro m_1() -> inc bx <-\nd_0: db 9\nL_1:\nstart:\nm_0(3)\njmp L_1".to_owned(),
+        "def p_0 { inc bx }\ndef p_1 { dec bx }\nd_1: dw 7\nstart:\ncall p_0\nmov ax,, 1".to_owned(),
+        "macro r_a() -> r_b() <-\nmacro r_b() -> r_a() <-\nstart:\nr_a()".to_owned(),
+        "set 0x200\nd_0: db [65535]\nd_2: db [65535]\nstart:\nhlt".to_owned(),
+        "start:\njmp nowhere_1\njmp nowhere_2\nL_2:\nL_2:".to_owned(),
+    ];
+    // a chain one level deeper than the assembler accepts
+    let mut t = String::from("macro c_0() -> inc ax <-\n");
+    for d in 1..=101 {
+        t.push_str(&format!("macro c_{}() -> c_{}() <-\n", d, d - 1));
+    }
+    t.push_str("macro m_0() -> c_0() <-\nstart:\nc_101()\n");
+    v.push(t);
+    v
+}
+
 const POISON: [&str; 14] = [
     "mov ax,, 5",
     "mov ax, 5",
@@ -261,12 +281,20 @@ fn make_multi_case(r: &mut Rng, seed: u64, run: u64, baton: bool) -> Option<Case
         let inj = match r.below(6) {
             0 => Inject::MachineCreate,
             1 => Inject::MachineDrop,
-            _ => Inject::PoisonLine((*r.pick(&POISON)).to_owned()),
+            _ => {
+                if r.chance(35) {
+                    let ps = poison_sources();
+                    Inject::PoisonLine(r.pick(&ps).clone())
+                } else {
+                    Inject::PoisonLine((*r.pick(&POISON)).to_owned())
+                }
+            }
         };
         inject.push((at, inj));
     }
     inject.sort_by_key(|x| x.0);
-    let spec = MultiSpec { machines, order, inject, threads: if baton { "baton".to_owned() } else { "none".to_owned() }, fuel };
+    let reuse_contexts = r.chance(50);
+    let spec = MultiSpec { machines, order, inject, threads: if baton { "baton".to_owned() } else { "none".to_owned() }, fuel, reuse_contexts };
     let mut case = Case::new("C19", "multi", seed, run, Scenario::new(b""));
     case.config = if baton { "baton_threads".to_owned() } else { "sequential".to_owned() };
     case.faults = vec!["poison_line".to_owned(), "machine_create".to_owned(), "machine_drop".to_owned(), "thread_switch".to_owned()];
